@@ -3,8 +3,13 @@
                                  estimate_expectation_values_by_averaging, evaluate_estimation_circuits
      api/circuit_runner.py       BaseCircuitRunner.run_batch_and_measure (validation of the shot counts only)
      measurements/measurements.py Measurements.get_expectation_values (+ expectation_values_to_real)
-   Self-contained on purpose (does not use Stats/Measure.v).  Coefficients are real rationals. *)
+   Self-contained on purpose (does not use Stats/Measure.v).  Coefficients are real rationals.
+   The last section (calculate_exact_expectation_values) is built on the model of get_expectation_value of
+   property C09 (Pauli/Matrix.v, over any commutative ring with conjugation); those modules are required but not
+   imported, their names are written qualified (Algebra.term, Matrix.get_expectation, ...). *)
 Require Import Coq.ZArith.ZArith Coq.QArith.QArith Coq.Lists.List Coq.Bool.Bool Coq.Arith.PeanoNat.
+Require Import OQ.Base.Ring.
+Require OQ.Base.Mat OQ.Pauli.Algebra OQ.Pauli.Matrix.
 Import ListNotations.
 
 (* ------------------------------------------------------------------ errors *)
@@ -210,3 +215,42 @@ Definition basis_runner {C} (state : C -> bits) (batch : list (C * Z)) : list me
 (* calculate_exact_expectation_values on a computational basis state, Ising operator: sum of c * eigenvalue *)
 Definition exact_on_basis (o : operator) (b : bits) : Q :=
   qsum (map (fun t => coef t * inject_Z (eps (qubits t) b)) o).
+
+(* ------------------------------------------------------------------ exact expectation values *)
+(* calculate_exact_expectation_values(runner, tasks):
+     [ExpectationValues(np.asarray([runner.get_exact_expectation_values(t.circuit, t.operator)])) for t in tasks]
+   BaseWavefunctionSimulator.get_exact_expectation_values(circuit, operator)
+     = get_expectation_value(operator, self.get_wavefunction(circuit)).real
+   One number per task (not per term).  [wavefunction] is the simulator (number of qubits and amplitudes of the
+   state a circuit prepares), [re] is ".real"; get_expectation_value is C09's Matrix.get_expectation (sparse
+   matrix of the operator on the state's width, then conj(state) . (matrix * state)); None = an exception
+   (operator wider than the state). *)
+Section Exact.
+  Variable K : cring.
+  Variables nzb is_zero : K -> bool.
+  Variable re : K -> K.
+  Variable C : Type.
+  Variable wavefunction : C -> nat * Mat.Vec K.
+
+  Record xtask := mkX { xop : Algebra.psum K; xcirc : C }.
+
+  Definition get_exact_expectation_values (c : C) (o : Algebra.psum K) : option K :=
+    match Matrix.get_expectation nzb is_zero (fst (wavefunction c)) o (snd (wavefunction c)) false with
+    | Some x => Some (re x)
+    | None => None
+    end.
+
+  Fixpoint calculate_exact (ts : list xtask) : option (list (list K)) :=
+    match ts with
+    | [] => Some []
+    | t :: r => match get_exact_expectation_values (xcirc t) (xop t) with
+                | None => None
+                | Some v => match calculate_exact r with None => None | Some vs => Some ([v] :: vs) end
+                end
+    end.
+End Exact.
+Arguments mkX {K C} _ _.
+Arguments xop {K C} _.
+Arguments xcirc {K C} _.
+Arguments get_exact_expectation_values {K} nzb is_zero re {C} wavefunction c o.
+Arguments calculate_exact {K} nzb is_zero re {C} wavefunction ts.
